@@ -364,6 +364,14 @@ def oracle(case, obs):
             v.append({"key": "hook-but-not-done", "what": "end/error hook fired but the layer keeps relaying"})
     if tcp and obs["phase"] == 1 and obs["waitk"] == 0 and not (obs["cst"] & 1) and not (obs["sst"] & 1):
         v.append({"key": "not-ended", "what": "both peers closed their read side, layer idle, flow not ended"})
+    # (2c) each peer eventually sees EOF: once the layer is done (end/error hook fired, or ignore mode finished) no
+    #      connection is left open -- the layer has closed whatever its peer had not closed already.  Not applied to
+    #      impossible schedules in which the server's close is delivered before the server connection exists.
+    early_s = any(e[0] == "closed" and e[1] == "s" and p[3] == 0 for e, p in zip(case["evs"], obs["pre"]))
+    if obs["phase"] == 2 and _valid(case) and not early_s and (obs["cst"] or obs["sst"]):
+        left = [n for n, st in (("client", obs["cst"]), ("server", obs["sst"])) if st]
+        v.append({"key": "done-with-open-connection",
+                  "what": f"layer is done but {'/'.join(left)} connection was never closed (state bits {obs['cst']}/{obs['sst']})"})
     # (3) half-close: a close handled while the other peer is still readable is propagated as a half-close, alone
     seen_closed = set()
     for e, p, o in zip(case["evs"], obs["pre"], obs["outs"]):
